@@ -385,6 +385,9 @@ def prog(cin, cout, kh, kw, groups, qt):
 
 
 def build(run):
+    from props import conformance
+
+    conformance.run_conformance(run, ['group'])
     run.assume("A-ENGINE qvc VC generator + z3/cvc5", "A-PY python semantics subset", "A-TORCH-IDX shapes of reshape/broadcast results; "
                "a violated PyTorch precondition (broadcast, reshape numel) raises RuntimeError", "A-TORCH-NN nn.Linear/Conv2d constructors create "
                "weight [out, in] / [out, in/groups, kh, kw]", "contract PackedTensor.pack (proved by C04)")
